@@ -86,6 +86,26 @@ Proof.
   - (* mempool *)
     destruct (pver <? BIP0035Version) eqn:Hp; [discriminate|]. inversion Hd; subst.
     cbn [enc_payload enc_check kind_of]. rewrite Hp. auto.
+  - (* filteradd *)
+    destruct (pver <? BIP0037Version) eqn:Hp; [discriminate|].
+    bind_inv Hd as d r0 E0. inversion Hd; subst.
+    apply dec_varbytes_inv in E0; [|exact Hok]. destruct E0 as [Hb [Hl _]].
+    cbn [enc_payload enc_check kind_of]. rewrite Hp. unfold len.
+    destruct (N.ltb_spec MaxFilterAddDataSize (N.of_nat (length d))); [lia|]. auto.
+  - (* filterclear *)
+    destruct (pver <? BIP0037Version) eqn:Hp; [discriminate|]. inversion Hd; subst.
+    cbn [enc_payload enc_check kind_of]. rewrite Hp. auto.
+  - (* filterload *)
+    destruct (pver <? BIP0037Version) eqn:Hp; [discriminate|]. unfold dec_filterload in Hd.
+    bind_inv Hd as f r0 E0. apply dec_varbytes_inv in E0; [|exact Hok]. destruct E0 as [Hb0 [Hl0 [Hr0 _]]].
+    bind_inv Hd as h r1 E1. apply read_le_inv in E1; [|exact Hr0]. destruct E1 as [Hb1 [_ Hr1]].
+    bind_inv Hd as t r2 E2. apply read_le_inv in E2; [|exact Hr1]. destruct E2 as [Hb2 [_ Hr2]].
+    bind_inv Hd as fl r3 E3. apply read_le_inv in E3; [|exact Hr2]. destruct E3 as [Hb3 [_ Hr3]].
+    destruct (N.ltb_spec MaxFilterLoadHashFuncs h) as [Hbad|Hh]; [discriminate|].
+    inversion Hd; subst. cbn [enc_payload enc_check kind_of]. rewrite Hp. unfold len.
+    destruct (N.ltb_spec MaxFilterLoadFilterSize (N.of_nat (length f))); [lia|].
+    destruct (N.ltb_spec MaxFilterLoadHashFuncs h); [lia|].
+    rewrite <- !app_assoc. auto.
   - (* reject *)
     destruct (pver <? RejectVersion) eqn:Hp; [discriminate|].
     apply dec_reject_inv in Hd; [|exact Hok].
@@ -195,6 +215,12 @@ Proof.
     unfold MaxVarIntPayload, MaxBlockLocatorsPerMsg in *. lia.
   - pose proof (alloc_counted_le MaxBlockHeadersPerMsg 81 bs).
     unfold MaxVarIntPayload, MaxBlockHeadersPerMsg in *. lia.
+  - (* filteradd *)
+    destruct (pver <? BIP0037Version); [lia|].
+    pose proof (alloc_varstring_le MaxFilterAddDataSize bs). lia.
+  - (* filterload *)
+    destruct (pver <? BIP0037Version); [lia|].
+    pose proof (alloc_varstring_le MaxFilterLoadFilterSize bs). lia.
   - (* reject *)
     destruct (pver <? RejectVersion); [lia|].
     apply N.max_lub; [apply alloc_varstring_le|].
